@@ -62,6 +62,9 @@ class SimLoop(asyncio.SelectorEventLoop):
         self.max_vtime = None
         self.steps = 0
         self.max_steps = 5_000_000
+        self._spin_mark_t = 1000.0
+        self._spin_mark_step = 0
+        self.spin_steps = 0
         self._clock_resolution = 1e-9
 
     def idle_hook(self):
@@ -79,6 +82,16 @@ class SimLoop(asyncio.SelectorEventLoop):
         self.steps += 1
         if self.steps > self.max_steps:
             raise SimDeadlock("step limit exceeded (livelock?)")
+        # A task that busy-spins (e.g. asyncio.wait over an already finished future in a loop) would freeze
+        # virtual time: after 20000 iterations within one virtual millisecond every further iteration costs
+        # 0.5 ms, so that timers, peers and the monitors still see what the spinning client does next.
+        if self._vtime - self._spin_mark_t > 1e-3:
+            self._spin_mark_t = self._vtime
+            self._spin_mark_step = self.steps
+        elif self.steps - self._spin_mark_step > 20000:
+            self.spin_steps += 1
+            self._vtime += 5e-4
+            self._spin_mark_t = self._vtime
         super()._run_once()
 
     def call_later(self, delay, callback, *args, context=None):
